@@ -12,6 +12,10 @@ def forUp {σ : Type} (lo hi : Int) (st : σ) (body : Int → σ → σ) : σ :=
 def forDown {σ : Type} (hi lo : Int) (st : σ) (body : Int → σ → σ) : σ :=
   (List.range (hi - lo + 1).toNat).foldl (fun st (k : Nat) => body (hi - (k : Int)) st) st
 
+/-- `for i := lo; i < hi; i++ { st = body i st }` with natural-number bounds -/
+def forNat {σ : Type} (lo hi : Nat) (st : σ) (body : Nat → σ → σ) : σ :=
+  (List.range (hi - lo)).foldl (fun st (k : Nat) => body (lo + k) st) st
+
 /-- a counting loop that an error return can leave: `none` once an iteration has failed -/
 def forUpOpt {σ : Type} (lo hi : Int) (st : σ) (body : Int → σ → Option σ) : Option σ :=
   forUp lo hi (some st) (fun i o => match o with | none => none | some s => body i s)
